@@ -147,7 +147,7 @@ Definition view_cas (v : option docview) : N := match v with Some d => v_cas d |
 
 (* "0 stands for no such document (for WriteCas: no live document)" *)
 Definition cas_matches (op : kop) (c : N) (pre : option docview) : bool :=
-  (c =? view_cas pre) && (negb (c =? 0) || is_none pre)
+  (c =? view_cas pre)
   || match op with
      | KWriteCas _ _ _ _ _ _ => (c =? 0) && negb (has_body pre)
      | _ => false
@@ -243,7 +243,7 @@ Definition chk_row_C05 : rowchk := fun key coll x op pre resp evs post =>
         | _, _, Some d1 =>
             if negb (has_body pre) && is_some (v_body d1) then
               match supplied_xattr_names op with
-              | Some ns => same_names (names_of (v_xattrs d1)) ns
+              | Some ns => subset_names (names_of (v_xattrs d1)) ns      (* none of the tombstone's survive *)
               | None => true
               end
             else true
